@@ -312,6 +312,9 @@ func c06Gen(g *Gen) {
 	g.c06E2E("probe-utf8", "$k0", n1, [][]string{{"a\xff"}, {"a\xfe"}, {"a"}, {"a\xff"}}, 0)
 	g.c06E2E("probe-utf8", "$k0", n1, [][]string{{"a\xff"}, {"a\xfe"}, {"a"}, {"a\xff"}}, 1)
 
+	// ------------------------------------------------------------------ concurrent connections (kind 8)
+	c06ConcGen(g)
+
 	// ------------------------------------------------------------------ exhaustive over the alphabet
 	for n := 1; n <= 3; n++ {
 		names := c06DefaultNames[:n]
